@@ -603,7 +603,7 @@ impl RCmd {
                     cx.eff(&mut a, Kind::Once, 0);
                     t.kind = RK::Req { a, map: false };
                 }
-                P::SpawnJoin(s, m) | P::JoinTwice(s, m) => {
+                P::SpawnJoin(s, m) | P::JoinTwice(s, m) | P::JoinBusy(s, m) => {
                     // ctx.spawn: the child goes to the spawn queue; its slot is the next free one
                     // at insertion time. We insert immediately (same settle, it runs after us).
                     let child = self.insert(task(RK::Fresh(P::Req(s))));
